@@ -1,5 +1,5 @@
 """MPT — must-pass-through / argument-agreement rules (C01, C06, C12, C14, C15, C16, C17)."""
-import re
+import re, json
 from mir import (peel, op_place, op_local, const_int, describe_origin, natural_loop)
 import tables as T
 from rules_tab import value_depends_on, cstr, err_return_in_region, report_error_in_region
@@ -527,6 +527,23 @@ def inclusion(run, R="INC"):
                 guarded = all(nav.edge_dominates(t["target"], sw[1], b3) for b3, t3 in pushes)
                 stack_ok = starts_empty and bool(pushes) and guarded
                 why_s = "the stack `..` pops from %s" % ("does not start empty (it is pre-filled with components that were never tested for `..`)" if not starts_empty else "is pushed to outside the `is not ..` edge")
+        # both slash styles are one separator: every separator-sensitive string operation works on the normalised spelling
+        raw_ops = []
+        n_sep = 0
+        for bi_, t_ in nav.calls():
+            c_ = t_.get("callee") or ""
+            if not re.search(r"<impl str>::(starts_with|ends_with|contains|find|rfind|split|rsplit|split_once|rsplit_once|strip_prefix|strip_suffix|split_terminator|trim_start_matches|trim_end_matches)$", c_) or len(t_["args"]) < 2:
+                continue
+            pat = _deep(nav, t_["args"][1], 3)
+            if "/" not in pat and "\\" not in pat:
+                continue
+            n_sep += 1
+            recv = _deep(nav, t_["args"][0], 6)
+            if not re.search(r'str::replace\(.*, "\\\\", "/"\)', recv):
+                raw_ops.append("%s(%s, %s)" % (c_.rsplit("::", 1)[-1], recv[:40], pat))
+        run.check(n_sep >= 2 and not raw_ops, R, R + "|navigate|separators-normalised", nav.loc(),
+                  "every separator-sensitive test or split in filename_navigate reads the spelling with `\\` replaced by `/` (%d operation(s))" % n_sep,
+                  "filename_navigate tests or splits a path as written, before `\\` is turned into `/` (%s): the backslash spelling of a path would be resolved differently from its forward-slash spelling" % raw_ops)
         run.check(stack_ok, R, R + "|navigate|all-components-tested", nav.loc(), "every component of the result (from the including file's path as well as from the written path) went through the `..` test",
                   "filename_navigate: %s: `..` components in the including file's own path survive into the result, so a root file given as `../x/main.asm` can name files outside the working directory" % why_s)
         run.check(found, R, R + "|navigate|dotdot-confined", nav.loc(), "`..` with nothing left to pop is reported and rejected", "filename_navigate no longer rejects `..` past the start of the path")
@@ -628,6 +645,18 @@ def inclusion(run, R="INC"):
             oki = oki and has_once
         run.check(oki, R, R + "|once|marked", pr.loc(), "a file enters the #once set exactly when its AST contains a #once directive",
                   "the #once set is no longer filled on the `contains a DirectiveOnce node` edge")
+        # ... and the nodes looked at are the file's own: the test comes before anything is spliced into (or taken out of) them
+        if len(anyc) == 1:
+            ab = anyc[0][0]
+            muts = [(bi, t) for bi, t in pr.calls() if re.search(r"Vec::<.*>::(splice|insert|remove|extend|append|push|drain|retain|extend_from_slice)$", t.get("callee") or "")
+                    and str((t.get("arg_tys") or [""])[0]).startswith("&mut") and "AstAny" in str((t.get("arg_tys") or [""])[0])]
+            from rules_fix import reach_from
+            after = set()
+            for mb, _ in muts:
+                after |= reach_from(pr, mb)
+            okb = bool(muts) and ab not in after
+            run.check(okb, R, R + "|once|own-nodes", pr.loc(), "the #once test reads the file's nodes before any included file is spliced into them (%d splice site(s))" % len(muts),
+                      "the #once test can run after nodes of included files were spliced into the list it looks at: a file without #once that includes a #once file would be treated as #once itself" if muts else "mechanism not found: the splice of included nodes")
     # the #once set lives across all root files, the include stack is per root file
     pm = run.anchor(R, "asm::parser::parse_many_and_resolve_includes")
     if pm is not None:
@@ -718,6 +747,21 @@ def inclusion(run, R="INC"):
         starts = [x for x in tests if x[2] == ["start"]]
         ends = [x for x in tests if "end" in x[2]]
         ok = bool(sl) and bool(starts) and bool(ends) and all(any(g.edge_dominates(b, ft, sb) for b, ft, d in starts) and any(g.edge_dominates(b, ft, sb) for b, ft, d in ends) for sb, _ in sl)
+        # every successful answer went through both tests -- except the one for an empty file (nothing to take a range of)
+        ok_blocks = [bi for bi, si, st in g.stmts() if st["k"] == "assign" and st["place"]["l"] == 0 and not st["place"]["p"] and st["rv"]["k"] == "agg" and st["rv"].get("variant") == "Ok"]
+        empty_edges = []
+        for bi, si, st in g.stmts():
+            if st["k"] == "assign" and st["rv"]["k"] == "binop" and st["rv"]["op"] in ("Eq", "Ne") and "0_usize" in (_deep(g, st["rv"]["l"], 3), _deep(g, st["rv"]["r"], 3)):
+                tt = g.blocks[bi]["term"]
+                if tt["k"] == "switch" and not any(value_depends_on(g, o_, l) for o_ in (st["rv"]["l"], st["rv"]["r"]) for l in s_locals + e_locals):
+                    ft = [tg for v, tg in tt["targets"] if v == "0"]
+                    if ft:
+                        empty_edges.append((bi, tt["otherwise"] if st["rv"]["op"] == "Eq" else ft[0]))
+        loose = [b for b in ok_blocks if not (any(g.edge_dominates(x, e, b) for x, e in empty_edges) or
+                                               (any(g.edge_dominates(x, ft, b) for x, ft, d in starts) and any(g.edge_dominates(x, ft, b) for x, ft, d in ends)))]
+        run.check(bool(ok_blocks) and not loose, R, "%s|range-every-ok|%s" % (R, name.rsplit("::", 1)[-1]), g.loc(),
+                  "%s: every Ok answer (%d) is behind both range tests, or is the answer for an empty file" % (name.rsplit("::", 1)[-1], len(ok_blocks)),
+                  "%s can answer Ok without having passed both range tests (block(s) %s): a range past the end of the file would be accepted and answered with other digits than requested" % (name.rsplit("::", 1)[-1], loose))
         run.check(ok, R, "%s|range|%s" % (R, name.rsplit("::", 1)[-1]), g.loc(), "%s: the slice of the file contents is behind the `start < len` and `end <= len` edges" % name.rsplit("::", 1)[-1],
                   "%s can slice the file contents without having passed both range tests (start after EOF / end after EOF)" % name.rsplit("::", 1)[-1])
 
@@ -729,6 +773,10 @@ def _deep(f, o, d=6):
     return deep(f, o, d)
 
 
+def short_callee_(c):
+    return re.sub(r"<[^<>]*>", "", c).split("::")[-1] if c else c
+
+
 def overlap_rules(run, R="OVL"):
     prog = run.prog
     ci = run.anchor(R, "OverlapChecker::check_and_insert")
@@ -736,8 +784,13 @@ def overlap_rules(run, R="OVL"):
     if ci is not None:
         cc = calls_to(ci, "OverlapChecker::check_overlap")
         ins = [(bi, t) for bi, t in ci.calls() if re.search(r"Vec::<.*>::insert$", t.get("callee") or "") and _deep(ci, t["args"][0]) == "P1.entries"]
-        ok = len(cc) == 1 and len(ins) == 1
-        why = "%d call(s) of check_overlap, %d insertion(s)" % (len(cc), len(ins))
+        # every other way of changing the entry list: a call handed `&mut self.entries`, or a store to the field
+        other = [(bi, t) for bi, t in ci.calls() if (bi, t) not in ins and any(
+            str(ty).startswith("&mut") and _deep(ci, a) == "P1.entries" for a, ty in zip(t["args"], t.get("arg_tys", [])))]
+        stores = [bi for bi, si, st in ci.stmts() if st["k"] == "assign" and st["place"]["l"] == 1 and "entries" in json.dumps(st["place"].get("proj", []))]
+        ok = len(cc) == 1 and len(ins) == 1 and not other and not stores
+        why = "%d call(s) of check_overlap, %d insertion(s), %d other mutation(s) of the entry list (%s)" % (
+            len(cc), len(ins), len(other) + len(stores), ", ".join(sorted(short_callee_(t.get("callee") or "?") for _, t in other)) or "-")
         if ok:
             cb, ct = cc[0]
             ib, it = ins[0]
@@ -793,6 +846,15 @@ def overlap_rules(run, R="OVL"):
         ENT = lambda idx: r"(?:Index::index\(P1\.entries, %s\)|slice::get\(P1\.entries, %s\)@Some\.0)" % (idx, idx)
         NEXT_E = ENT(I)
         PREV_E = ENT(r"\(" + I + r" Sub 1_usize\)")
+        # `i.checked_sub(1).and_then(|p| self.entries.get(p))` is the entry before the insertion index, absent on None
+        from rules_sym import deep as _sdeep
+        getters = [g for g in run.prog.real_fns() if g.id.startswith(co.id + "::{closure") and
+                   re.fullmatch(r"slice::get\(upvar:\w+\.entries, P2\)", _sdeep(g, {"copy": {"l": 0, "p": []}}, 6) or "")]
+
+        def norm(d):
+            if len(getters) == 1:
+                d = re.sub(r"Option::and_then\(num::checked_sub\((" + I + r"), 1_usize\), closure\(P1\)\)", r"slice::get(P1.entries, (\1 Sub 1_usize))", d)
+            return d
         cmp_next, cmp_prev = set(), set()
         absent_edges = {}      # (block, target) -> "next" / "prev": edges on which that neighbour does not exist
         for x in sorted(ereg):
@@ -802,7 +864,7 @@ def overlap_rules(run, R="OVL"):
             ft = [tg for v, tg in tt["targets"] if v == "0"]
             for st in co.blocks[x]["stmts"]:
                 if st["k"] == "assign" and st["rv"]["k"] == "binop" and op_local(tt["discr"]) == st["place"]["l"]:
-                    l, r, op = _deep(co, st["rv"]["l"], 8), _deep(co, st["rv"]["r"], 8), st["rv"]["op"]
+                    l, r, op = norm(_deep(co, st["rv"]["l"], 8)), norm(_deep(co, st["rv"]["r"], 8)), st["rv"]["op"]
                     if op == "Gt" and l == "(P2 Add P3)" and re.fullmatch(NEXT_E + r"\.position", r):
                         cmp_next.add(x)
                     elif op == "Gt" and r == "P2" and re.fullmatch(r"\(" + PREV_E + r"\.position Add " + PREV_E + r"\.size\)", l):
@@ -816,7 +878,7 @@ def overlap_rules(run, R="OVL"):
         from rules_sym import option_tests
         for sb_, some_, none_ in option_tests(co, lambda d: bool(re.fullmatch(r"slice::get\(P1\.entries, " + I + r"\)", d))):
             absent_edges[(sb_, none_)] = "next"
-        for sb_, some_, none_ in option_tests(co, lambda d: bool(re.fullmatch(r"slice::get\(P1\.entries, \(" + I + r" Sub 1_usize\)\)", d))):
+        for sb_, some_, none_ in option_tests(co, lambda d: bool(re.fullmatch(r"slice::get\(P1\.entries, \(" + I + r" Sub 1_usize\)\)", norm(d)))):
             absent_edges[(sb_, none_)] = "prev"
         okn = bool(cmp_next) and bool(cmp_prev)
         why = "comparisons found: next=%d prev=%d" % (len(cmp_next), len(cmp_prev))
@@ -1091,6 +1153,7 @@ def bank_range_rules(run, R="MPT"):
         # the first rejection: a switch whose taken edge reports `out of range` and fails
         from rules_sym import report_error_in_region as rep2
         found = False
+        range_blocks = []
         for b in sorted(f.reachable()):
             tt = f.blocks[b]["term"]
             if tt["k"] != "switch" or op_local(tt["discr"]) is None:
@@ -1104,9 +1167,31 @@ def bank_range_rules(run, R="MPT"):
                         found = True
                         ok = dep_size and ("P%d" % sz) in d
                         why = "the out-of-range decision `%s` does not involve the item's size: only the start of an item is tested against the bank's size" % d[:160]
+                        range_blocks.append(b)
         if not found:
             ok = False
             why = "no rejection that compares the position with the bank's size"
+        # every successful answer has been through the range test, or the bank has no size
+        from rules_sym import option_tests
+        none_edges = {(sb_, none_) for sb_, some_, none_ in option_tests(f, lambda d: d.endswith(".size") and "cur_position" not in d)}
+        okp = bool(range_blocks) and bool(none_edges)
+        whyp = "no test of the bank's optional size" if range_blocks else "no range test"
+        if okp:
+            seen, work = set(), [0]
+            while work:
+                x = work.pop()
+                if x in seen or x in range_blocks:
+                    continue
+                seen.add(x)
+                for e in f.succs(x):
+                    if (x, e) not in none_edges:
+                        work.append(e)
+            bad = [x for x in sorted(seen) if any(st["k"] == "assign" and st["place"]["l"] == 0 and not st["place"].get("proj") and st["rv"]["k"] == "agg"
+                                                   and st["rv"].get("variant") == "Ok" for st in f.blocks[x]["stmts"])]
+            okp = not bad
+            whyp = "an Ok answer (bb%s) is reachable without the range test although the bank has a size" % ",".join(map(str, bad))
+        run.check(okp, R, R + "|bank-range|every-ok-tested", f.loc(), "every Ok answer of check_bank_output is behind the range test or the `bank has no size` edge",
+                  "check_bank_output: %s: an item (a reservation, an #addr) past the end of a sized bank would be accepted" % whyp)
     run.check(ok, R, R + "|bank-range|end-of-item", f.loc(), "an item is rejected when position + size exceeds the bank's size",
               "check_bank_output: %s; an item that starts inside the bank but ends past it would be written beyond the bank (into the next bank's window)" % why)
 
@@ -1233,3 +1318,37 @@ def _split_top(s):
 
 def _mentions_payload(val, sd):
     return (sd + "@Some.0") in val
+
+
+def no_failure_after_write(run, R="WRITE"):
+    """driver: once an output file has been written, the only way the run can still fail is a later write failing.  Every Err
+    return reachable from the success edge of a write_bytes call is the `?` of a write_bytes call."""
+    f = run.anchor(R, "driver::assemble_with_command")
+    if f is None:
+        return
+    wr = [(bi, t) for bi, t in f.calls() if (t.get("callee") or "").endswith("FileServer::write_bytes")]
+    edges = [success_edge_of_call(f, bi, t) for bi, t in wr]
+    ok = bool(wr) and all(e is not None for e in edges)
+    why = "%d write_bytes call(s), not all `?`-propagated" % len(wr)
+    bad = []
+    if ok:
+        seen, work = set(), [e[1] for e in edges]
+        while work:
+            x = work.pop()
+            if x in seen or f.blocks[x]["cleanup"]:
+                continue
+            seen.add(x)
+            work.extend(f.succs(x))
+        for x in sorted(seen):
+            for st in f.blocks[x]["stmts"]:
+                if st["k"] == "assign" and st["place"]["l"] == 0 and not st["place"]["p"] and st["rv"]["k"] == "agg" and st["rv"].get("variant") == "Err":
+                    bad.append("%s: an explicit Err" % f.loc(st["span"]))
+            tt = f.blocks[x]["term"]
+            if tt["k"] == "call" and (tt.get("callee") or "").endswith("FromResidual::from_residual") and tt["dest"]["l"] == 0:
+                d = _deep(f, tt["args"][0], 4)
+                if "write_bytes(" not in d:
+                    bad.append("%s: `?` on `%s`" % (f.loc(tt["span"]), d[:60]))
+        ok = not bad
+        why = "; ".join(bad)
+    run.check(ok, R, R + "|no-failure-after-write", f.loc(), "assemble_with_command: after a successful write the run can only fail through another write (%d write site(s))" % len(wr),
+              "assemble_with_command can fail after an output file was already written (%s): a failed run would leave output behind" % why)
